@@ -14,6 +14,22 @@ CHECKS = {
    technique="explicit-state BFS over all statement interleavings of 2-3 sessions on the real engine, step-wise conformance to a snapshot-isolation model",
    text="All interleavings (to the completed depth) of the statements of 2 (quick) / 3 (thorough) concurrent sessions plus autocommit writers over colliding rows, on a table without index and on one with a unique index; every read result, every statement outcome and the final committed state are compared with the textbook snapshot-isolation model (snapshot at begin + own writes, first committer wins).",
    note="Trusted: the reference model; statement-level interleavings only (a statement runs to completion before the next is issued); UPDATE-related and write-write-conflict histories are listed known findings and judged only up to the hazard."),
+ "C07": dict(engine="seq", cat=MC, ref="7/C07",
+   technique="explicit-state BFS over operation sequences of the real engine, step-wise conformance to a constraint-aware snapshot-isolation model",
+   text="Every sequence (to the completed depth) of insert / duplicate insert / NULL insert / multi-row insert with a duplicate / delete / re-insert / update-to-key / rollback / VACUUM operations of two sessions plus autocommit, on tables whose UNIQUE and NOT NULL constraints are declared in CREATE TABLE (single and two-column) or added by CREATE UNIQUE INDEX on populated data; every statement must be accepted or rejected exactly as the model says and every fresh read must equal the model, which keeps the committed-state invariant by construction.",
+   note="Trusted: the reference model; keys from {1,2,3,NULL}; PRIMARY KEY syntax is exercised only through UNIQUE (same code path); histories that trigger a listed known finding (UPDATE on indexed tables, concurrent inserters of one key, NULL in a unique column, ...) are judged only up to the trigger."),
+ "C09": dict(engine="seq", cat=MC, ref="7/C09",
+   technique="explicit-state BFS over operation sequences split by flush/VACUUM/close-reopen on the real engine, model carried across reopen",
+   text="Every sequence (to the completed depth) of DML/DDL (unique table, second table with multi-page overflow rows, rollbacks, DROP TABLE, flush, VACUUM) split at arbitrary points by close/reopen; after every history without an open session the database is additionally closed, reopened (in the second search with a different DBConfig than it was created with: page size 8192 vs 4096, cache 64 vs 10000, min keys 4 vs 3) and every table read back and compared with the model; probe inserts after reopen check that constraints, row ids and object ids carried over.",
+   note="Trusted: the reference model; two creation-time configurations; the >8192-transaction part of the property (aborted-transaction bitmap) is not covered in the quick tier."),
+ "C13": dict(engine="seq", cat=MC, ref="7/C13",
+   technique="explicit-state BFS over operation sequences with VACUUM at every position on the real engine; VACUUM is a no-op in the reference model",
+   text="Every sequence (to the completed depth) of committed and rolled-back inserts/updates/deletes, table create/drop, VACUUM (any position, repeated) and reopen, on a plain and on a unique-indexed table; VACUUM changes nothing in the reference model, so every later answer must equal the model's; every history without an open session is additionally followed by VACUUM + fresh read. Plus a bounded-storage run: (3 updates of each of 8 rows; VACUUM)^n must not grow the file after the first cycle.",
+   note="Trusted: the reference model; VACUUM with sessions open (documented to abort them) is outside the alphabet; the storage-boundedness run uses fixed-size rows."),
+ "C15": dict(engine="seq", cat=MC, ref="7/C15",
+   technique="explicit-state BFS over DDL/DML operation sequences on the real engine, step-wise conformance to a transactional-DDL snapshot-isolation model",
+   text="Every sequence (to the completed depth) of CREATE TABLE (two shapes of the same name), DROP TABLE, re-CREATE, SET/DROP NOT NULL, CREATE UNIQUE INDEX, ADD/DROP COLUMN and DML on the same and on another table, in autocommit and inside committed or rolled-back sessions, with reopen; objects must be visible by name exactly while they exist for the reading snapshot, other tables undisturbed, and every history is followed by close + reopen + fresh read.",
+   note="Trusted: the reference model; ADD COLUMN, DROP COLUMN, DROP TABLE / ALTER / CREATE INDEX inside a transaction are listed known findings and only their first step is executed."),
 }
 
 def cmd(pid, tier): return f"./check {pid} {tier}"
